@@ -11,11 +11,13 @@ from __future__ import annotations
 
 import random
 
+import translate.markup_sites
 from harness import core
 from harness.core import Atom
 from harness.gen import autoesc_terms as T
 
 ID = "C15"
+GEN = [translate.markup_sites.gen]
 LEAN_MODULES = ["JinjaV.Props.C15"]
 LEVEL = "proof"
 TRUSTED = [
@@ -29,8 +31,8 @@ TRUSTED = [
     "is not scanned",
 ]
 ASSUMPTIONS = [
-    "excluded by the property: |safe, Markup passed in as data, autoescape-off regions, gettext; select_autoescape's name matching is "
-    "exercised end-to-end only (no Lean model in this revision)",
+    "excluded by the property: |safe, Markup passed in as data, autoescape-off regions, gettext; select_autoescape is modelled for "
+    "ASCII names and extensions (str.lower is a parameter of the model)",
     "an {% autoescape %} region is taken to cover the bodies written lexically inside it except {% block %} bodies (known finding "
     "C15:autoescape-region-around-block: a block body is compiled with the template-level mode)",
 ]
@@ -45,7 +47,10 @@ CLAIM = dict(
          "values (macro call, caller(), super(), block reference, set block), bound values, output, sequencing — whose template text is "
          "M-free, in an environment whose Markup values are M-free, every Markup value constructed is M-free: literals and data are plain, "
          "plain operands of Markup operations are escaped); output_clean / render_clean (everything such a term writes is M-free, for "
-         "arbitrary plain context data). Tie: random terms with metacharacter-laden data and literals spelled through set blocks, macros, "
+         "arbitrary plain context data); markup_sites_mapped (every Markup(...) call of filters/utils/runtime/ext/nodes/environment.py and "
+         "every emitted code string mentioning Markup in compiler.py, READ from the source on every run, is one of the 29 sites the model "
+         "has a clause for — a new site breaks the pin); select_autoescape_spec (no name -> default_for_string; otherwise only the "
+         "lower-cased name matters, an enabled-extension suffix wins, then a disabled one, then default). Tie: random terms with metacharacter-laden data and literals spelled through set blocks, macros, "
          "call blocks, imported macros, includes, super(), with, for, rendered under static / select_autoescape / {% autoescape true %} / "
          "runtime-decided {% autoescape flag %} and compared with the model; ALL built-in filters x receivers (str, Markup, list, dict, "
          "nested, int) x argument shapes (data-controlled), string and Markup methods, operators, scanned for raw M characters (urlize, "
@@ -53,7 +58,7 @@ CLAIM = dict(
          "format, truncate, wordwrap, escape, forceescape, and urlize/xmlattr/tojson of C24) are covered by this scan ONLY, not by proof.",
     note="Trusted: Lean kernel; the value-level model and the filter models (tied by correspondence); markupsafe. Known finding: an "
          "{% autoescape %} region does not reach into a {% block %} body written inside it (C15:autoescape-region-around-block). "
-         "select_autoescape and the Gen inventory of Markup( construction sites proposed in DESIGN §5 are not built: partial.",
+         "The L-code comparison of the compiler's output paths proposed in DESIGN §5 is not built (value-level model instead): partial.",
     design_ref="§5 C15",
 )
 
@@ -104,8 +109,10 @@ def run(ctx, res):
     terms = run_terms(ctx, res, jinja2)
     scan = run_scan(ctx, res, jinja2)
     probe = run_known_probe(ctx, res, jinja2)
+    sel = run_select(ctx, res, jinja2)
     res.coverage.update({
-        "evaluations": terms["renders"] + scan["renders"] + probe,
+        "evaluations": terms["renders"] + scan["renders"] + probe + sel,
+        "select_autoescape_cases": sel,
         "distinct_nontrivial": terms["nontrivial"] + scan["nontrivial"],
         "rule": ("(1) random well-sorted terms of Model/Autoesc.lean with all constructors except wordwrap, depth 2-4/5, 1-3 context strings "
                  "from a pool of marker strings with < > \" ' &, literals likewise, M-free template text, spelled as template sets by the "
@@ -264,6 +271,27 @@ def run_scan(ctx, res, jinja2):
     return {"renders": renders, "raised": raised, "nontrivial": len(nontrivial), "expressions": total_expressions, "sampled_per_configuration": len(keep) + min(len(rest), ctx.pick(3500, 15000)), "filters": len(filters),
             "modes": modes, "renders_per_filter_min": min(per_filter_ok.values()), "scan_only": scan_only,
             "samples": [{"expr": rest[7][2], "data": datasets[0]}, {"expr": METHODS[20], "data": datasets[0]}]}
+
+
+def run_select(ctx, res, jinja2):
+    """utils.select_autoescape against Model/SelectAutoescape.lean (ASCII names and extensions)"""
+    rng = ctx.rng("select")
+    exts = ["html", "HTML", ".htm", "..xml", "Xml", "txt", ".TXT", "j2", "html.j2", "", "l", "tml"]
+    names = [None, "a.html", "A.HTML", "b.Htm", "c.xml", "d.txt", "e.TxT", "f.html.j2", "g", "html", ".html", "x.html ", "dir.html/y", "z.xhtml",
+             "q.tml", "", "r.", "s.j2"]
+    reqs, jobs = [], []
+    for _ in range(ctx.pick(400, 4000)):
+        en = [rng.choice(exts) for _ in range(rng.randrange(0, 4))]
+        dis = [rng.choice(exts) for _ in range(rng.randrange(0, 3))]
+        dfs, dflt, name = rng.random() < 0.5, rng.random() < 0.5, rng.choice(names)
+        reqs.append([Atom("autoesc"), Atom("select"), en, dis, dfs, dflt, Atom("none") if name is None else name])
+        jobs.append((en, dis, dfs, dflt, name))
+    for (en, dis, dfs, dflt, name), rep in zip(jobs, core.driver_batch(reqs)):
+        got = jinja2.select_autoescape(enabled_extensions=en, disabled_extensions=dis, default_for_string=dfs, default=dflt)(name)
+        if got is not rep[1]:
+            res.violate("C15:select_autoescape", f"select_autoescape({en}, {dis}, default_for_string={dfs}, default={dflt})({name!r}) = {got}; "
+                        f"documented rule (model) {rep[1]}", {"enabled": en, "disabled": dis, "default_for_string": dfs, "default": dflt, "name": name})
+    return len(jobs)
 
 
 def T_wire_ok(s):
